@@ -3,6 +3,7 @@
 package sql
 
 // Contracts for govc (comment-only; compiled only with -tags verif). Property C14 (and C01).
+//@ spec import C14
 //@ spec import rqlite_random
 //
 //@ func isNow
@@ -33,14 +34,12 @@ package sql
 //@   ghost var name0 string = lower(as(node, "*github.com/rqlite/sql.Call").Name.Name)
 //@   ghost var nargs0 int = len(as(node, "*github.com/rqlite/sql.Call").Args)
 //@   ghost var ob0 bool = rw.orderedBy
-//@   ghost var now1 bool = false
-//@   ghost var now2 bool = false
-//@   ghost var atoiOK bool = false
-//@   ghost update @isNow#1: now1 = result
-//@   ghost update @isNow#2: now1 = result
-//@   ghost update @isNow#3: now1 = result
-//@   ghost update @isNow#4: now2 = result
-//@   ghost update @strconv.Atoi: atoiOK = (result1 == nil)
+//@   ghost var a0 int = as(node, "*github.com/rqlite/sql.Call").Args[0]
+//@   ghost var a1 int = as(node, "*github.com/rqlite/sql.Call").Args[1]
+// nowExpr(e): e is the time value 'now'; tied to what isNow answers at every call of it (assumed: the
+// AST's identifier and string-literal texts do not change while the statement is being rewritten).
+//@   assume @isNow: [isNow-decides-nowExpr] result == nowExpr(arg0)
+//@   assume @strconv.Atoi: [atoi-decides-isIntLit] (result1 == nil) == isIntLit(arg0)
 //@   assert @isNow#1: [time-value-is-argument-0] arg0 == n.Args[0]
 //@   assert @isNow#2: [strftime-time-value-is-argument-1] arg0 == n.Args[1]
 //@   assert @isNow#3: [timediff-first] arg0 == n.Args[0]
@@ -48,12 +47,12 @@ package sql
 //@   ensures [visitor-kept] result2 == nil && result0 == rw
 //@   ensures [random-replaced] (isCall && rw.RewriteRand && !ob0 && name0 == "random") ==> (typeis(result1, "*github.com/rqlite/sql.NumberLit") && rw.modified)
 //@   ensures [random-in-order-by-kept] (isCall && ob0 && (name0 == "random" || name0 == "randomblob")) ==> result1 == node
-//@   ensures [randomblob-literal-replaced] (isCall && rw.RewriteRand && !ob0 && name0 == "randomblob" && nargs0 == 1 && typeis(as(node, "*github.com/rqlite/sql.Call").Args[0], "*github.com/rqlite/sql.NumberLit") && atoiOK) ==> (typeis(result1, "*github.com/rqlite/sql.BlobLit") && rw.modified)
-//@   ensures [explicit-now-made-concrete] (isCall && rw.RewriteTime && nargs0 >= 1 && now1 && (name0 == "date" || name0 == "time" || name0 == "datetime" || name0 == "julianday" || name0 == "unixepoch")) ==> (result1 == node && typeis(as(node, "*github.com/rqlite/sql.Call").Args[0], "*github.com/rqlite/sql.NumberLit") && rw.modified)
+//@   ensures [randomblob-literal-replaced] (isCall && rw.RewriteRand && !ob0 && name0 == "randomblob" && nargs0 == 1 && typeis(as(node, "*github.com/rqlite/sql.Call").Args[0], "*github.com/rqlite/sql.NumberLit") && isIntLit(as(a0, "*github.com/rqlite/sql.NumberLit").Value)) ==> (typeis(result1, "*github.com/rqlite/sql.BlobLit") && rw.modified)
+//@   ensures [explicit-now-made-concrete] (isCall && rw.RewriteTime && nargs0 >= 1 && nowExpr(a0) && !typeis(a0, "*github.com/rqlite/sql.NumberLit") && (name0 == "date" || name0 == "time" || name0 == "datetime" || name0 == "julianday" || name0 == "unixepoch")) ==> (result1 == node && typeis(as(node, "*github.com/rqlite/sql.Call").Args[0], "*github.com/rqlite/sql.NumberLit") && rw.modified)
 //@   ensures [implicit-now-made-concrete] (isCall && rw.RewriteTime && nargs0 == 0 && (name0 == "date" || name0 == "time" || name0 == "datetime" || name0 == "julianday" || name0 == "unixepoch")) ==> (result1 == node && len(as(node, "*github.com/rqlite/sql.Call").Args) >= 1 && typeis(as(node, "*github.com/rqlite/sql.Call").Args[0], "*github.com/rqlite/sql.NumberLit"))
-//@   ensures [strftime-now-made-concrete] (isCall && rw.RewriteTime && name0 == "strftime" && nargs0 >= 2 && now1) ==> (result1 == node && typeis(as(node, "*github.com/rqlite/sql.Call").Args[1], "*github.com/rqlite/sql.NumberLit") && rw.modified)
+//@   ensures [strftime-now-made-concrete] (isCall && rw.RewriteTime && name0 == "strftime" && nargs0 >= 2 && nowExpr(a1) && !typeis(a1, "*github.com/rqlite/sql.NumberLit")) ==> (result1 == node && typeis(as(node, "*github.com/rqlite/sql.Call").Args[1], "*github.com/rqlite/sql.NumberLit") && rw.modified)
 //@   ensures [strftime-implicit-now-made-concrete] (isCall && rw.RewriteTime && name0 == "strftime" && nargs0 == 1) ==> (len(as(node, "*github.com/rqlite/sql.Call").Args) >= 2 && typeis(as(node, "*github.com/rqlite/sql.Call").Args[1], "*github.com/rqlite/sql.NumberLit"))
-//@   ensures [timediff-now-made-concrete] (isCall && rw.RewriteTime && name0 == "timediff" && nargs0 >= 2) ==> ((now1 ==> typeis(as(node, "*github.com/rqlite/sql.Call").Args[0], "*github.com/rqlite/sql.NumberLit")) && (now2 ==> typeis(as(node, "*github.com/rqlite/sql.Call").Args[1], "*github.com/rqlite/sql.NumberLit")))
+//@   ensures [timediff-now-made-concrete] (isCall && rw.RewriteTime && name0 == "timediff" && nargs0 >= 2) ==> (((nowExpr(a0) && !typeis(a0, "*github.com/rqlite/sql.NumberLit")) ==> typeis(as(node, "*github.com/rqlite/sql.Call").Args[0], "*github.com/rqlite/sql.NumberLit")) && ((nowExpr(a1) && !typeis(a1, "*github.com/rqlite/sql.NumberLit")) ==> typeis(as(node, "*github.com/rqlite/sql.Call").Args[1], "*github.com/rqlite/sql.NumberLit")))
 //@   ensures [order-by-flag-set] typeis(node, "*github.com/rqlite/sql.OrderingTerm") ==> (rw.orderedBy && result1 == node)
 //@   ensures [order-by-flag-kept] !typeis(node, "*github.com/rqlite/sql.OrderingTerm") ==> rw.orderedBy == ob0
 //@   ensures [other-nodes-untouched] (!isCall) ==> (result1 == node && rw.modified == old(rw.modified))
